@@ -6,6 +6,11 @@ HERE = os.path.dirname(os.path.dirname(os.path.abspath(__file__)))
 ALL = ["C%02d" % i for i in range(1, 21)]
 
 CLAIMED = {
+ "C07": dict(
+   technique="TLA+ models Tableau.tla (all rooted-tree order conditions, decided exactly by modular arithmetic on the tableaux extracted from the imported code), FixedRK.tla (exact rational trajectories and evaluation sequences) and AdaptiveRK.tla (step controller) checked by TLC; TLC's rational predictions replayed on the real fixed-step methods; ark.try hook traces of rk23/rk45 validated by TLC against Trace_AdaptiveRK.tla with numeric verdicts",
+   text="TLC decides, for the coefficient tables actually present in the code (converted to rationals at run time), every order condition up to the declared order (17 trees to order 5) for rk4, rk38, euler, RK23 (3 with embedded 2) and RK45 (5 with embedded 4, FSAL extension), row-sum consistency and the error-estimator order; a weight perturbed by 1/1000 is caught. For y' = lam*y + mu*t on rational grids (both directions, single time point) TLC computes the exact trajectory and the exact (t, y) argument of every stage; the real solve_ivp must reproduce the values to a few ulps, y(ts[0]) = y0 bit-exactly and call the right-hand side at exactly the predicted arguments - one step of s stages per interval. The controller model is exhaustive for 3 targets / 6 trials; every trial step of 80 (quick) real adaptive runs (4 ODE families with closed-form solutions x 5 grids x tolerances) must match it (targets in order, landing on the requested time, rejection shrinks, no growth after a rejection, factor bounds) and the final event carries: first value = y0, global error within the stated bound, bit-identical prefix independence, tuple state = concatenated state; plus observed convergence orders and decreasing grids for the fixed-step methods.",
+   design_ref="5.8, 6 (C07)",
+   note="Trusted: TLC/SANY, Fraction.limit_denominator(1e7) round-trip of the coefficients, closed-form solutions of the families, error bound 3*N_accepted*(atol+rtol*max|y|)*exp(L*T). Landing on a requested time is required up to the rounding error of t0 + (t1 - t0)."),
  "C19": dict(
    technique="TLA+ model RefGraph.tla of reference-counting reclamation, run by TLC on the ownership graph recorded from the real objects of each call for every order of dropping the caller's handles; the same histories measured on the real objects with the cyclic collector disabled; model and measurement must agree",
    text="For every functional (rootfinder, equilibrium, minimize, solve_ivp, quad, mcquad, jac, hess, solve, symeig, svd, Interp1D, SQuad) x method x function kind x history {forward only, +backward, +graph-recording backward and second backward} the objects reachable from the returned handles are recorded as a graph (interpreter-reported strong references plus tensor -> grad_fn, restricted to objects created by the call); TLC explores all drop orders with pure reference counting and reports any call-allocated tensor that stays live, naming its holders; the same history is executed with gc disabled and the number of live torch.Tensor objects compared before / after one call and after three more calls. A leak the measurement shows is a violation (explained by the model's offending edge); a leak only the model shows is treated as a failure of the extractor, never reported as a violation.",
@@ -57,7 +62,7 @@ CLAIMED = {
    design_ref="5.3, 6 (C20)",
    note="Trusted: TLC/SANY, the projection functions of harness/props/c20.py (independent traversal, identity comparison), bounds of MC_Packer*.cfg. Containers shared between two positions are outside the model."),
 }
-HOOK_COMMITS = ["b53e553", "860e24d", "586f68a", "d76150b", "bff9807"]
+HOOK_COMMITS = ["b53e553", "860e24d", "586f68a", "d76150b", "bff9807", "d903ec8"]
 
 
 def main():
